@@ -182,7 +182,7 @@ contract("asn1:_read_asn1_set", **_READ_COMMON,
                   "implies(header is not None and tag is not None, header.tag == tag)"])
 contract("asn1:_read_asn1_boolean", **_READ_COMMON,
          # X.690 8.2: one content octet, FALSE = 0, TRUE = any other value (contents of another length are malformed: no claim)
-         ensures=["implies(len(%s) == 1, result[0] == (%s[0] != 0))" % (_CONTENT, _CONTENT),
+         ensures=["implies(len(%s) == 1, result[0] == (%s[0] != 0))" % (_CONTENT, _CONTENT), "result[0] == bool_den(%s)" % _CONTENT,
                   "result[1] == " + _CONSUMED, "result[1] <= len(data)", "result[1] >= 0", "implies(header is None, result[1] >= 2)",
                   _tagmatch(1, "False"),
                   "implies(header is not None and tag is not None, header.tag == tag)"])
@@ -307,7 +307,7 @@ contract("asn1:ASN1Reader.get_remaining_data",
 contract("asn1:ASN1Reader.read_octet_string", **_RCOMMON,
          ensures=["result == " + _RCONTENT] + _ADV + [_rtagmatch(4, "False")])
 contract("asn1:ASN1Reader.read_boolean", **_RCOMMON,
-         ensures=["implies(len(%s) == 1, result == (%s[0] != 0))" % (_RCONTENT, _RCONTENT)] + _ADV + [_rtagmatch(1, "False")])
+         ensures=["implies(len(%s) == 1, result == (%s[0] != 0))" % (_RCONTENT, _RCONTENT), "result == bool_den(%s)" % _RCONTENT] + _ADV + [_rtagmatch(1, "False")])
 contract("asn1:ASN1Reader.read_integer", **_RCOMMON,
          ensures=["len(%s) >= 1" % _RCONTENT, "result == tc(%s)" % _RCONTENT] + _ADV + [_rtagmatch(2, "False")])
 contract("asn1:ASN1Reader.read_sequence", **_RCOMMON,
